@@ -10,6 +10,7 @@ events without trusting any clock.
 from __future__ import annotations
 
 import asyncio
+import sys
 import contextvars
 import itertools
 import linecache
@@ -636,3 +637,36 @@ def make_processors():
 
 def events_of(rec: Rec, tag: str) -> list:
     return [e[2] for e in rec.ev if e[0] == "ev" and e[1] == tag]
+
+
+# --------------------------------------------------------------------------
+# Reach: which functions of the repository did the workload actually enter?
+# --------------------------------------------------------------------------
+
+REACHED: set = set()
+_REACH_ON = [False]
+
+
+def start_reach(src_root: str) -> bool:
+    """sys.monitoring PY_START tap: records (file relative to src_root, qualname) of every repository function
+    on its first entry and disables itself for that code object (cost ~ one callback per function)."""
+    mon = getattr(sys, "monitoring", None)
+    if mon is None or _REACH_ON[0]:
+        return _REACH_ON[0]
+    root = src_root.rstrip("/") + "/"
+    tool = mon.PROFILER_ID
+    try:
+        mon.use_tool_id(tool, "hgmon-reach")
+    except ValueError:
+        return False
+
+    def on_start(code, offset):
+        fn = code.co_filename
+        if fn.startswith(root):
+            REACHED.add((fn[len(root):], code.co_qualname))
+        return mon.DISABLE
+
+    mon.register_callback(tool, mon.events.PY_START, on_start)
+    mon.set_events(tool, mon.events.PY_START)
+    _REACH_ON[0] = True
+    return True
